@@ -597,12 +597,109 @@ static void race_fence(int mo) {
 }
 static void race_lock(const void* m) { if (race_on && g_in_child && Msg) { RaceBusy rb; vjoin(Cv[rtid()], (*Msg)[m]); } }
 static void race_unlock(const void* m) { if (race_on && g_in_child && Msg) { RaceBusy rb; int t = rtid(); (*Msg)[m] = Cv[t]; Cv[t].c[t]++; } }
+// ------------------------------------------------------------------------------------------
+// weak-memory execution (--weak W): the runtime keeps, for every atomic location, the history of messages written to it, and per thread the
+// views cur / acq / rel of spec/common/Mem.tla (view-based release/acquire + fences + seq_cst, append-only modification order, RMWs and
+// failed CASes read the latest message).  A load may return an OLDER message that the thread's view still allows; at most W such stale
+// reads per execution, each one a recorded decision (choose), so executions replay from their decision list.  Real memory always holds the
+// latest value (plain accesses, the heap quarantine and the crash handlers keep working).  Sound for reporting: every execution produced
+// is allowed by the C++ memory model; incomplete: no load buffering, stale reads only of the two most recent older messages.
+// ------------------------------------------------------------------------------------------
+typedef std::vector<uint32_t> WView;
+struct WMsg { uint64_t val; WView view; };
+struct WLoc { std::vector<WMsg> h; uint32_t floor = 0; int idx = 0; };
+static std::unordered_map<const void*, WLoc>* WL = nullptr;
+static WView Wcur[NTV], Wacq[NTV], Wrel[NTV], Wscv, Wflag[16];
+static std::unordered_map<const void*, WView>* Wmtx = nullptr;
+static int weak_left = 0;
+static inline bool w_on() { return weakW > 0 && g_in_child; }
+static inline uint32_t vget(const WView& v, int i) { return (size_t)i < v.size() ? v[(size_t)i] : 0; }
+static inline void vmax(WView& v, int i, uint32_t x) { if ((size_t)i >= v.size()) v.resize((size_t)i + 1, 0); if (v[(size_t)i] < x) v[(size_t)i] = x; }
+static inline void vjoinw(WView& a, const WView& b) { if (a.size() < b.size()) a.resize(b.size(), 0); for (size_t i = 0; i < b.size(); i++) if (b[i] > a[i]) a[i] = b[i]; }
+static inline bool w_acq(int mo) { return mo == 1 || mo == 2 || mo == 4 || mo == 5; }
+static inline bool w_rel(int mo) { return mo == 3 || mo == 4 || mo == 5; }
+static inline uint64_t w_mask(size_t n) { return n >= 8 ? ~0ull : ((1ull << (8 * n)) - 1); }
+static void w_init() {
+  RaceBusy rb; WL = new std::unordered_map<const void*, WLoc>(); Wmtx = new std::unordered_map<const void*, WView>(); weak_left = weakW;
+  for (int i = 0; i < NTV; i++) { Wcur[i].clear(); Wacq[i].clear(); Wrel[i].clear(); } Wscv.clear(); for (auto& f : Wflag) f.clear();
+}
+// history of location a; `actual` = what memory holds right now: a location first seen, or one that was (re)initialised by plain writes
+// (constructors, recycled nodes), starts a new history whose first message everybody may read and nobody may go behind
+static WLoc& w_loc(const void* a, uint64_t actual) {
+  WLoc& L = (*WL)[a];
+  if (L.h.empty()) { L.idx = (int)WL->size(); L.h.push_back({actual, WView()}); }
+  else if (L.h.back().val != actual) { L.h.push_back({actual, WView()}); L.floor = (uint32_t)L.h.size() - 1; }
+  return L;
+}
+static void w_read_msg(int t, WLoc& L, uint32_t i, int mo) {        // Mem.tla Load
+  const WMsg& m = L.h[i]; int x = L.idx;
+  vmax(Wcur[t], x, i);
+  WView a2 = Wacq[t]; vjoinw(a2, Wcur[t]); vjoinw(a2, m.view);
+  if (w_acq(mo)) vjoinw(Wcur[t], m.view);
+  vjoinw(a2, Wcur[t]); Wacq[t].swap(a2);
+  if (mo == 5) vmax(Wscv, x, i);
+}
+static uint64_t w_load(const void* a, size_t n, uint64_t actual, int mo) {
+  RaceBusy rb; int t = rtid(); actual &= w_mask(n);
+  WLoc& L = w_loc(a, actual);
+  uint32_t last = (uint32_t)L.h.size() - 1, lo = vget(Wcur[t], L.idx);
+  if (mo == 5 && vget(Wscv, L.idx) > lo) lo = vget(Wscv, L.idx);
+  if (L.floor > lo) lo = L.floor;
+  uint32_t i = last;
+  if (weak_left > 0 && active && my_tid >= 0 && lo < last) {
+    long ncand = (long)(last - lo); if (ncand > 2) ncand = 2;
+    long c = choose(ncand + 1);
+    if (c > 0) { i = last - (uint32_t)c; weak_left--;
+      logf("{\"e\":\"note\",\"t\":%d,\"op\":\"stale\",\"a\":%d,\"b\":%ld,\"r\":0,\"v\":0}\n", tid(), loc_id(a), c); }
+  }
+  w_read_msg(t, L, i, mo);
+  return L.h[i].val;
+}
+static void w_store(const void* a, size_t n, uint64_t before, uint64_t v, int mo) {   // Mem.tla Store
+  RaceBusy rb; int t = rtid(); v &= w_mask(n);
+  WLoc& L = w_loc(a, before & w_mask(n)); int x = L.idx; uint32_t i = (uint32_t)L.h.size();
+  vmax(Wcur[t], x, i);
+  WView mv = w_rel(mo) ? Wcur[t] : Wrel[t]; vmax(mv, x, i);
+  L.h.push_back({v, mv});
+  vjoinw(Wacq[t], Wcur[t]);
+  if (mo == 5) vmax(Wscv, x, i);
+}
+static void w_rmw(const void* a, size_t n, uint64_t before, uint64_t v, int mo) {     // Mem.tla Rmw: reads the latest message
+  RaceBusy rb; int t = rtid(); v &= w_mask(n);
+  WLoc& L = w_loc(a, before & w_mask(n)); int x = L.idx; uint32_t j = (uint32_t)L.h.size() - 1, i = j + 1;
+  WView mview = L.h[j].view;
+  if (w_acq(mo)) vjoinw(Wcur[t], mview);
+  vmax(Wcur[t], x, i);
+  WView mv = w_rel(mo) ? Wcur[t] : Wrel[t]; vmax(mv, x, i); vjoinw(mv, mview);
+  L.h.push_back({v, mv});
+  vjoinw(Wacq[t], Wcur[t]); vjoinw(Wacq[t], mview);
+  if (mo == 5) vmax(Wscv, x, i);
+}
+static void w_casfail(const void* a, size_t n, uint64_t actual, int fmo) {            // a failed CAS is a load of the latest message
+  RaceBusy rb; int t = rtid(); WLoc& L = w_loc(a, actual & w_mask(n));
+  w_read_msg(t, L, (uint32_t)L.h.size() - 1, fmo);
+}
+static void w_fence(int mo) {                                                          // Mem.tla Fence
+  if (!w_on()) return;
+  RaceBusy rb; int t = rtid();
+  if (mo == 1 || mo == 2) Wcur[t] = Wacq[t];
+  else if (mo == 3) Wrel[t] = Wcur[t];
+  else if (mo == 4) { Wcur[t] = Wacq[t]; Wrel[t] = Wacq[t]; }
+  else if (mo == 5) { WView c = Wacq[t]; vjoinw(c, Wscv); Wcur[t] = c; Wacq[t] = c; Wrel[t] = c; Wscv = c; }
+}
+static void w_sync_from(int t, const WView& v) { vjoinw(Wcur[t], v); vjoinw(Wacq[t], v); vjoinw(Wrel[t], v); }
+static void w_thread_start(int t, int after) { if (!w_on()) return; RaceBusy rb; w_sync_from(t, Wcur[MAXT]); if (after >= 0) w_sync_from(t, Wcur[after]); }
+static void w_join_all(int n) { if (!w_on()) return; RaceBusy rb; for (int t = 0; t < n; t++) w_sync_from(MAXT, Wcur[t]); }
+static void w_lock(const void* m) { if (!w_on() || !Wmtx) return; RaceBusy rb; w_sync_from(rtid(), (*Wmtx)[m]); }
+static void w_unlock(const void* m) { if (!w_on() || !Wmtx) return; RaceBusy rb; (*Wmtx)[m] = Wcur[rtid()]; }
+
 // harness-level ordering also orders the threads for the race detector (a real program would use a flag or join here)
-void sync_set(int i) { hflags[i & 15] = 1; if (race_on) { int t = rtid(); vjoin(Fsync[i & 15], Cv[t]); Cv[t].c[t]++; } }
-void sync_wait(int i) { harness_wait(1, i); if (race_on) vjoin(Cv[rtid()], Fsync[i & 15]); }
-void wait_exit(int t) { harness_wait(2, t); if (race_on && t >= 0 && t < MAXT) vjoin(Cv[rtid()], Cv[t]); }
+void sync_set(int i) { hflags[i & 15] = 1; if (race_on) { int t = rtid(); vjoin(Fsync[i & 15], Cv[t]); Cv[t].c[t]++; } if (w_on()) { RaceBusy rb; vjoinw(Wflag[i & 15], Wcur[rtid()]); } }
+void sync_wait(int i) { harness_wait(1, i); if (race_on) vjoin(Cv[rtid()], Fsync[i & 15]); if (w_on()) { RaceBusy rb; w_sync_from(rtid(), Wflag[i & 15]); } }
+void wait_exit(int t) { harness_wait(2, t); if (race_on && t >= 0 && t < MAXT) vjoin(Cv[rtid()], Cv[t]); if (w_on() && t >= 0 && t < MAXT) { RaceBusy rb; w_sync_from(rtid(), Wcur[t]); } }
 void race_ignore_begin() { race_ignore[rtid()]++; }
 void race_ignore_end() { race_ignore[rtid()]--; }
+
 
 #define chk(a, what) chk_((a), (what), __builtin_return_address(0), __builtin_frame_address(0))
 static inline void chk_(const void* a, const char* what, void* pc, void* fp) {
@@ -669,47 +766,56 @@ void __tsan_write_range(void* a, unsigned long n) { chk(a, "wr"); if (n > 1) chk
     if (bits == 8 && mo == 2 && !in_arena((const void*)a) && __atomic_load_n(a, __ATOMIC_SEQ_CST) == (T)1) return (T)1; /* set guard variable of a function-local static: not an access of the code under test */ \
     sched_point(K_READ, (const void*)a, 0); chk((const void*)a, "ald"); \
     T v = __atomic_load_n(a, __ATOMIC_SEQ_CST); race_atomic((const void*)a, sizeof(T), RA_LOAD, mo, __builtin_return_address(0)); \
+    if (w_on()) v = (T)w_load((const void*)a, sizeof(T), (uint64_t)v, mo); \
     step_ev("ld", (const void*)a, (uint64_t)v, mo, 1, __builtin_return_address(0)); \
     after_access(K_READ, (const void*)a, (uint64_t)v); return v; } \
   void __tsan_atomic##bits##_store(volatile T* a, T v, int mo) { \
     sched_point(K_WRITE, (const void*)a, 0); chk((const void*)a, "ast"); \
+    if (w_on()) w_store((const void*)a, sizeof(T), (uint64_t)__atomic_load_n(a, __ATOMIC_RELAXED), (uint64_t)v, mo); \
     __atomic_store_n(a, v, __ATOMIC_SEQ_CST); race_atomic((const void*)a, sizeof(T), RA_STORE, mo, __builtin_return_address(0)); \
     step_ev("st", (const void*)a, (uint64_t)v, mo, 1, __builtin_return_address(0)); \
     after_access(K_WRITE, (const void*)a, (uint64_t)v); } \
   T __tsan_atomic##bits##_exchange(volatile T* a, T v, int mo) { \
     sched_point(K_WRITE, (const void*)a, 0); chk((const void*)a, "arm"); \
     T o = __atomic_exchange_n(a, v, __ATOMIC_SEQ_CST); race_atomic((const void*)a, sizeof(T), RA_RMW, mo, __builtin_return_address(0)); \
+    if (w_on()) w_rmw((const void*)a, sizeof(T), (uint64_t)o, (uint64_t)v, mo); \
     step_ev("xchg", (const void*)a, (uint64_t)o, mo, 1, __builtin_return_address(0)); \
     after_access(K_WRITE, (const void*)a, (uint64_t)v); return o; } \
   T __tsan_atomic##bits##_fetch_add(volatile T* a, T v, int mo) { \
     sched_point(K_WRITE, (const void*)a, 0); chk((const void*)a, "arm"); \
     T o = __atomic_fetch_add(a, v, __ATOMIC_SEQ_CST); race_atomic((const void*)a, sizeof(T), RA_RMW, mo, __builtin_return_address(0)); \
+    if (w_on()) w_rmw((const void*)a, sizeof(T), (uint64_t)o, (uint64_t)(T)(o + v), mo); \
     step_ev("faa", (const void*)a, (uint64_t)o, mo, 1, __builtin_return_address(0)); \
     after_access(K_WRITE, (const void*)a, (uint64_t)v); return o; } \
   T __tsan_atomic##bits##_fetch_sub(volatile T* a, T v, int mo) { \
     sched_point(K_WRITE, (const void*)a, 0); chk((const void*)a, "arm"); \
     T o = __atomic_fetch_sub(a, v, __ATOMIC_SEQ_CST); race_atomic((const void*)a, sizeof(T), RA_RMW, mo, __builtin_return_address(0)); \
+    if (w_on()) w_rmw((const void*)a, sizeof(T), (uint64_t)o, (uint64_t)(T)(o - v), mo); \
     step_ev("fas", (const void*)a, (uint64_t)o, mo, 1, __builtin_return_address(0)); \
     after_access(K_WRITE, (const void*)a, (uint64_t)v); return o; } \
   T __tsan_atomic##bits##_fetch_or(volatile T* a, T v, int mo) { \
     sched_point(K_WRITE, (const void*)a, 0); chk((const void*)a, "arm"); \
     T o = __atomic_fetch_or(a, v, __ATOMIC_SEQ_CST); race_atomic((const void*)a, sizeof(T), RA_RMW, mo, __builtin_return_address(0)); \
+    if (w_on()) w_rmw((const void*)a, sizeof(T), (uint64_t)o, (uint64_t)(T)(o | v), mo); \
     step_ev("for", (const void*)a, (uint64_t)o, mo, 1, __builtin_return_address(0)); \
     after_access(K_WRITE, (const void*)a, (uint64_t)v); return o; } \
   T __tsan_atomic##bits##_fetch_and(volatile T* a, T v, int mo) { \
     sched_point(K_WRITE, (const void*)a, 0); chk((const void*)a, "arm"); \
     T o = __atomic_fetch_and(a, v, __ATOMIC_SEQ_CST); race_atomic((const void*)a, sizeof(T), RA_RMW, mo, __builtin_return_address(0)); \
+    if (w_on()) w_rmw((const void*)a, sizeof(T), (uint64_t)o, (uint64_t)(T)(o & v), mo); \
     step_ev("fand", (const void*)a, (uint64_t)o, mo, 1, __builtin_return_address(0)); \
     after_access(K_WRITE, (const void*)a, (uint64_t)v); return o; } \
   T __tsan_atomic##bits##_fetch_xor(volatile T* a, T v, int mo) { \
     sched_point(K_WRITE, (const void*)a, 0); chk((const void*)a, "arm"); \
     T o = __atomic_fetch_xor(a, v, __ATOMIC_SEQ_CST); race_atomic((const void*)a, sizeof(T), RA_RMW, mo, __builtin_return_address(0)); \
+    if (w_on()) w_rmw((const void*)a, sizeof(T), (uint64_t)o, (uint64_t)(T)(o ^ v), mo); \
     step_ev("fxor", (const void*)a, (uint64_t)o, mo, 1, __builtin_return_address(0)); \
     after_access(K_WRITE, (const void*)a, (uint64_t)v); return o; } \
   int __tsan_atomic##bits##_compare_exchange_strong(volatile T* a, T* c, T v, int mo, int fmo) { \
     sched_point(K_WRITE, (const void*)a, 0); chk((const void*)a, "arm"); \
     T before = *c; \
     int ok = __atomic_compare_exchange_n(a, c, v, 0, __ATOMIC_SEQ_CST, __ATOMIC_SEQ_CST); \
+    if (w_on()) { if (ok) w_rmw((const void*)a, sizeof(T), (uint64_t)before, (uint64_t)v, mo); else w_casfail((const void*)a, sizeof(T), (uint64_t)*c, fmo); } \
     race_atomic((const void*)a, sizeof(T), ok ? RA_RMW : RA_LOAD, ok ? mo : fmo, __builtin_return_address(0)); \
     step_ev("cas", (const void*)a, (uint64_t)(ok ? before : *c), mo, ok, __builtin_return_address(0)); \
     after_access(ok ? K_WRITE : K_READ, (const void*)a, (uint64_t)*c); return ok; } \
@@ -717,13 +823,14 @@ void __tsan_write_range(void* a, unsigned long n) { chk(a, "wr"); if (n > 1) chk
     sched_point(K_WRITE, (const void*)a, 0); chk((const void*)a, "arm"); \
     T before = *c; \
     int ok = __atomic_compare_exchange_n(a, c, v, 0, __ATOMIC_SEQ_CST, __ATOMIC_SEQ_CST); \
+    if (w_on()) { if (ok) w_rmw((const void*)a, sizeof(T), (uint64_t)before, (uint64_t)v, mo); else w_casfail((const void*)a, sizeof(T), (uint64_t)*c, fmo); } \
     race_atomic((const void*)a, sizeof(T), ok ? RA_RMW : RA_LOAD, ok ? mo : fmo, __builtin_return_address(0)); \
     step_ev("cas", (const void*)a, (uint64_t)(ok ? before : *c), mo, ok, __builtin_return_address(0)); \
     after_access(ok ? K_WRITE : K_READ, (const void*)a, (uint64_t)*c); return ok; }
 XV_ATOM(8, uint8_t) XV_ATOM(16, uint16_t) XV_ATOM(32, uint32_t) XV_ATOM(64, uint64_t)
 
 void __tsan_atomic_thread_fence(int mo) {
-  sched_point(K_FENCE, nullptr, 0); race_fence(mo);
+  sched_point(K_FENCE, nullptr, 0); race_fence(mo); w_fence(mo);
   step_ev("fence", nullptr, 0, mo, 1, __builtin_return_address(0));
 }
 void __tsan_atomic_signal_fence(int) {}
@@ -759,7 +866,7 @@ int pthread_mutex_lock(pthread_mutex_t* m) {
       status[me] = BLOCKED; blocked_on[me] = m;
       int next = pick(me); switch_to(next, me);
     }
-    (*mtx_owner)[m] = me; race_lock(m);
+    (*mtx_owner)[m] = me; race_lock(m); w_lock(m);
     step_ev("lock", m, 0, 5, 1, __builtin_return_address(0));
     return 0;
   }
@@ -772,7 +879,7 @@ int pthread_mutex_trylock(pthread_mutex_t* m) {
     sched_point(K_MUTEX, m, 0);
     if (!mtx_owner) mtx_owner = new std::map<const void*, int>();
     if (mtx_owner->count(m)) return 16; // EBUSY
-    (*mtx_owner)[m] = my_tid; race_lock(m); return 0;
+    (*mtx_owner)[m] = my_tid; race_lock(m); w_lock(m); return 0;
   }
   resolve_mtx();
   return real_trylock ? real_trylock(m) : 0;
@@ -782,7 +889,7 @@ int pthread_mutex_unlock(pthread_mutex_t* m) {
   if (active && my_tid >= 0) {
     sched_point(K_MUTEX, m, 0);
     if (mtx_owner) mtx_owner->erase(m);
-    race_unlock(m);
+    race_unlock(m); w_unlock(m);
     for (int t = 0; t < nthreads; t++) if (status[t] == BLOCKED && blocked_on[t] == m) status[t] = RUNNABLE;
     write_epoch++; allparked_rounds = 0;
     step_ev("unlock", m, 0, 5, 1, __builtin_return_address(0));
@@ -837,7 +944,7 @@ static void thread_main(int id, const std::function<void(int)>* body) {
   my_tid = id;
   track_thread();
   fwait(&gotok[id]);
-  race_thread_start(id, start_after[id]);
+  race_thread_start(id, start_after[id]); w_thread_start(id, start_after[id]);
   (*body)(id);
 }
 
@@ -861,6 +968,7 @@ static ChildResult run_child(const std::function<Scenario(const std::string&)>& 
     rng_state = ctl.seed * 6364136223846793005ull + 1442695040888963407ull; if (!rng_state) rng_state = 1;
     solo_at = ctl.solo_at; solo_thread = ctl.solo_thread;
     if (race_on) race_init();
+    if (weakW > 0) w_init();
     Scenario sc = make(prog);
     nthreads = sc.nthreads;
     if (nthreads > MAXT) _exit(2);
@@ -874,7 +982,7 @@ static ChildResult run_child(const std::function<Scenario(const std::string&)>& 
     active = true;
     { int first = pick(-1); cur = first; if (first >= 0) fwake(&gotok[first]); }
     for (auto& t : th) t.join();
-    active = false; race_join_all(nthreads);
+    active = false; race_join_all(nthreads); w_join_all(nthreads);
     if (sc.finish) sc.finish();
     finish_child("ok", 0);
   }
